@@ -5,6 +5,9 @@ import (
 	"time"
 
 	"go.nanomsg.org/mangos/v3"
+	"go.nanomsg.org/mangos/v3/protocol"
+	"go.nanomsg.org/mangos/v3/protocol/req"
+	"go.nanomsg.org/mangos/v3/protocol/surveyor"
 	"go.nanomsg.org/mangos/v3/zzverif/verif"
 	"go.nanomsg.org/mangos/v3/zzverif/vp"
 	"go.nanomsg.org/mangos/v3/zzverif/vt"
@@ -235,5 +238,77 @@ func VH07b_fanout() {
 		verif.Assert(len(rs[stalled].Sent) == 0, lab+"/stalled-respondent-log")
 	}
 	verif.Reach("fanout-checked")
+	sock.Close()
+}
+
+// VH07c_idseed: the id counter of REQ / SURVEYOR starts at an arbitrary 32-bit
+// value (solver variable - the library seeds it from the clock, so every value
+// including the ones just before the 2^32 wrap is a reachable state). K
+// requests / surveys in a row, on the socket and on an opened context: every
+// id on the wire carries the request bit (otherwise REP / RESPONDENT peers and
+// devices take it for a routing word and drop the message), consecutive ids
+// differ, and the answer carrying that id is delivered.
+func VH07c_idseed() {
+	which := verif.Param("req", 0)
+	lab := "C07/idseed"
+	var p protocol.Protocol
+	seed := verif.Uint32("seed")
+	if which == 1 {
+		lab = "C03/idseed"
+		p = req.NewProtocol()
+		req.ZZSetNextID(p, seed)
+	} else {
+		p = surveyor.NewProtocol()
+		surveyor.ZZSetNextID(p, seed)
+	}
+	sock := protocol.MakeSocket(p)
+	side := vt.Listen(sock, "a")
+	p1 := side.Peer("p1")
+	c, err := sock.OpenContext()
+	verif.Assert(err == nil, lab+"/open-context")
+	K := verif.Param("K", 3)
+	var prev []byte
+	for i := 0; i < K; i++ {
+		onCtx := verif.Choice("on-context", 2) == 1
+		tag := byte('a' + i)
+		if onCtx {
+			verif.Assert(c.Send([]byte{tag}) == nil, lab+"/send")
+		} else {
+			verif.Assert(sock.Send([]byte{tag}) == nil, lab+"/send")
+		}
+		verif.Quiesce()
+		if len(p1.Sent) != i+1 {
+			verif.Fail(lab + "/not-exactly-one-transmission-per-send")
+			return
+		}
+		r := p1.Sent[i]
+		verif.Assert(len(r.H) == 4 && len(r.B) == 1 && r.B[0] == tag, lab+"/wire-shape")
+		if len(r.H) != 4 {
+			return
+		}
+		verif.Assert(r.H[0]&0x80 != 0, lab+"/id-on-the-wire-without-the-request-bit")
+		if prev != nil {
+			verif.Assert(!verif.BytesEq(prev, r.H), lab+"/consecutive-ids-equal")
+		}
+		prev = r.H
+		// the answer
+		p1.Deliver([]byte{r.H[0], r.H[1], r.H[2], r.H[3], 'r', tag})
+		verif.Quiesce()
+		var b []byte
+		var rerr error
+		g := verif.Go("recv", func() {
+			if onCtx {
+				b, rerr = c.Recv()
+			} else {
+				b, rerr = sock.Recv()
+			}
+		})
+		verif.Quiesce()
+		verif.Assert(g.Done() && rerr == nil, lab+"/answer-not-delivered")
+		if g.Done() && rerr == nil {
+			verif.Assert(len(b) == 2 && b[0] == 'r' && b[1] == tag, lab+"/answer-changed")
+		}
+	}
+	verif.Reach("idseed-done")
 	sock.Close()
 }
